@@ -207,6 +207,46 @@ func Run(dir string, timeout time.Duration, env []string, stdin []byte, name str
 	return so.Bytes(), se.Bytes(), err
 }
 
+// MaxDriverOutput bounds what one driver process may print (a decoder that accumulates state prints ever longer dumps).
+const MaxDriverOutput = 48 << 20
+
+// ErrOutputLimit is what RunCapped returns when the process was stopped for printing too much.
+const ErrOutputLimit = "driver output exceeds the limit"
+
+// RunCapped is Run with a bound on stdout: beyond max bytes the process is stopped, the whole lines printed so
+// far are returned together with an error that starts with ErrOutputLimit. env is appended to os.Environ().
+func RunCapped(dir string, timeout time.Duration, env []string, stdin []byte, max int, name string, args ...string) (stdout, stderr []byte, err error) {
+	ctx, cancel := context.WithTimeout(context.Background(), timeout)
+	defer cancel()
+	cmd := exec.CommandContext(ctx, name, args...)
+	cmd.Dir = dir
+	cmd.WaitDelay = 5 * time.Second
+	if env != nil {
+		cmd.Env = append(os.Environ(), env...)
+	}
+	if stdin != nil {
+		cmd.Stdin = bytes.NewReader(stdin)
+	}
+	so := &capWriter{max: max, cancel: cancel}
+	se := &capWriter{max: 1 << 20}
+	cmd.Stdout = so
+	cmd.Stderr = se
+	err = cmd.Run()
+	out := so.buf.Bytes()
+	switch {
+	case so.over:
+		err = fmt.Errorf("%s of %d bytes", ErrOutputLimit, max)
+		if k := bytes.LastIndexByte(out, '\n'); k >= 0 {
+			out = out[:k+1]
+		} else {
+			out = nil
+		}
+	case ctx.Err() == context.DeadlineExceeded:
+		err = fmt.Errorf("timeout after %v", timeout)
+	}
+	return out, se.buf.Bytes(), err
+}
+
 // ParseDriverOutput turns driver output lines into observations.
 func ParseDriverOutput(out []byte) map[string]*Obs {
 	res := map[string]*Obs{}
